@@ -354,8 +354,9 @@ pub fn gen_workload(rng: &mut Rng, which: Analysis) -> RosWorkload {
     let bw = bandwidth_pm(&supply);
     let util_pct = match rng.below(10) {
         0 => rng.range(15, 40),
-        1..=6 => rng.range(40, 80),
-        _ => rng.range(75, 97),
+        1..=4 => rng.range(40, 80),
+        5..=7 => rng.range(75, 97),
+        _ => rng.range(90, 100), // long busy windows: worst case at a late offset
     };
     let total_share = bw * util_pct / 100; // per mille of the processor
     let sw = ros_arr_swarm(rng);
@@ -364,13 +365,15 @@ pub fn gen_workload(rng: &mut Rng, which: Analysis) -> RosWorkload {
         Analysis::EcrtsPp => {
             if rng.chance(1, 6) {
                 (0, 1) // an event source served alone
+            } else if rng.chance(1, 5) {
+                (rng.range(2, 4), rng.below(2)) // timer-heavy (long timer busy windows)
             } else {
                 (rng.below(3), rng.range(1, 4))
             }
         }
-        Analysis::EcrtsChain => (rng.below(3), rng.range(1, 3)),
+        Analysis::EcrtsChain => (rng.weighted(&[3, 3, 3, 1]) as u64, rng.range(1, 3)),
         _ => {
-            let t = rng.below(3);
+            let t = rng.weighted(&[3, 3, 3, 1, 1]) as u64;
             (t, rng.range(if t == 0 { 1 } else { 0 }, 4))
         }
     };
